@@ -17,12 +17,18 @@ import (
 	"time"
 
 	"github.com/nspcc-dev/neo-go/pkg/config"
+	"github.com/nspcc-dev/neo-go/pkg/core"
 	"github.com/nspcc-dev/neo-go/pkg/core/block"
+	"github.com/nspcc-dev/neo-go/pkg/core/native/noderoles"
 	"github.com/nspcc-dev/neo-go/pkg/core/state"
+	"github.com/nspcc-dev/neo-go/pkg/core/stateroot"
 	"github.com/nspcc-dev/neo-go/pkg/core/storage"
 	"github.com/nspcc-dev/neo-go/pkg/core/transaction"
+	"github.com/nspcc-dev/neo-go/pkg/crypto/keys"
 	"github.com/nspcc-dev/neo-go/pkg/io"
 	"github.com/nspcc-dev/neo-go/pkg/neotest"
+	"github.com/nspcc-dev/neo-go/pkg/smartcontract"
+	"github.com/nspcc-dev/neo-go/pkg/vm/emit"
 	"github.com/nspcc-dev/neo-go/verifharness/vlib/ev"
 	"github.com/nspcc-dev/neo-go/verifharness/vlib/rng"
 	"github.com/nspcc-dev/neo-go/verifharness/vlib/vchain"
@@ -651,6 +657,153 @@ func resetAheadRun(t *testing.T, run *ev.Run, idx, nblocks int) {
 	}
 }
 
+// resetValidatedRun: the node has accepted state roots signed by the designated
+// state validators (the state service of a network without state roots in
+// headers) for some heights; it is then reset below some or all of them. The
+// validated height of the reset node - read right after the reset and again
+// after a reopen - is the highest signed root at or below the target, or none,
+// exactly as on a node that only ever synchronised to the target and was given
+// the same signed roots.
+func resetValidatedRun(t *testing.T, run *ev.Run, idx, nblocks int) {
+	proto := func(c *config.Blockchain) { vchain.AllForks(c); c.MaxTraceableBlocks = 1000 }
+	w := vchain.DefaultWeights
+	w.Role = 0
+	p := vchain.NewProducer(t, vchain.ProducerConfig{Proto: proto, Users: 6, W: w, Stream: uint64(idx) + 950, TolerateReject: true})
+	defer p.Close()
+	var sk []*keys.PrivateKey
+	var pubs []any
+	for i := 0; i < 1+idx%3; i++ {
+		sk = append(sk, vchain.DetKey("role", i))
+		pubs = append(pubs, sk[i].PublicKey().Bytes())
+	}
+	sort.Slice(sk, func(i, j int) bool { return sk[i].PublicKey().Cmp(sk[j].PublicKey()) < 0 })
+	p.AddBlock(p.Call("designate-state-validators", []neotest.Signer{p.Val, p.CommitteeSigner()}, p.RoleH, "designateAsRole", int64(noderoles.StateValidator), pubs))
+	for len(p.Raw) < nblocks && p.Rejected == nil {
+		p.Step()
+	}
+	if p.Rejected != nil {
+		run.Violation("producer-rejected-own-block", fmt.Sprint("run", idx), p.Rejected.Error(), nil)
+		return
+	}
+	var spk keys.PublicKeys
+	for _, k := range sk {
+		spk = append(spk, k.PublicKey())
+	}
+	verif, err := smartcontract.CreateDefaultMultiSigRedeemScript(spk)
+	if err != nil {
+		t.Fatal(err)
+	}
+	r := rng.New(uint64(idx)*13 + 16)
+	tip := len(p.Raw)
+	target := 6 + r.Intn(tip-10)
+	// heights with signed roots: always some above the target, in half of the runs one at or below it
+	signed := map[int]bool{target + 1 + r.Intn(tip-target-1): true, tip - r.Intn(2): true}
+	if idx%2 == 0 {
+		signed[4+r.Intn(target-3)] = true
+	}
+	var hs []int
+	want := 0
+	for h := range signed {
+		hs = append(hs, h)
+		if h <= target && h > want {
+			want = h
+		}
+	}
+	sort.Ints(hs)
+	id := fmt.Sprintf("reset-validated%d/from%d/to%d/signed%v", idx, tip, target, hs)
+	if !run.Want(id) {
+		return
+	}
+	run.Case(id, true)
+	rep, err := vchain.OpenReplica(t, vchain.ReplicaCfg{Name: "rec", Cfg: proto, Backend: "mem", Record: true})
+	if err != nil {
+		t.Fatal(err)
+	}
+	for i := range p.Raw {
+		if err := rep.AddRaw(p.Raw[i]); err != nil {
+			rep.Close()
+			run.Violation("reset:recording-node-failed", id, err.Error(), nil)
+			return
+		}
+	}
+	magic := uint32(rep.BC.GetConfig().Magic)
+	mod := rep.BC.GetStateModule().(*stateroot.Module)
+	for _, h := range hs {
+		local, err := mod.GetStateRoot(uint32(h))
+		if err != nil {
+			t.Fatalf("%s: state root %d: %v", id, h, err)
+		}
+		sr := &state.MPTRoot{Version: local.Version, Index: local.Index, Root: local.Root}
+		inv := io.NewBufBinWriter()
+		for _, k := range sk {
+			emit.Bytes(inv.BinWriter, k.SignHashable(magic, sr))
+		}
+		sr.Witness = []transaction.Witness{{InvocationScript: inv.Bytes(), VerificationScript: verif}}
+		if err := mod.AddStateRoot(sr); err != nil {
+			rep.Close()
+			run.Violation("reset:signed-state-root-refused", id, fmt.Sprintf("height %d: %v", h, err), nil)
+			return
+		}
+		run.Obs("signed_state_roots_accepted", 1)
+	}
+	if got := int(mod.CurrentValidatedHeight()); got != hs[len(hs)-1] {
+		t.Fatalf("%s: validated height %d before the reset", id, got)
+	}
+	rep.BC.Close()
+	check := func(stage string, bc *core.Blockchain) bool {
+		m := bc.GetStateModule()
+		if int(bc.BlockHeight()) != target {
+			run.Violation("reset:wrong-height-after-reset", id, fmt.Sprintf("%s: height %d", stage, bc.BlockHeight()), nil)
+			return false
+		}
+		if got := int(m.CurrentValidatedHeight()); got != want {
+			run.Violation("reset:validated-state-height-differs-from-a-node-synced-to-the-target", id, fmt.Sprintf("%s: reset from %d to %d, signed state roots at %v: the validated height reads %d, a node that only ever synchronised to %d and got the same roots has %d", stage, tip, target, hs, got, target, want), map[string]any{"target": target, "signed": hs})
+			return false
+		}
+		for _, h := range hs {
+			sr, err := m.GetStateRoot(uint32(h))
+			switch {
+			case h <= target && (err != nil || len(sr.Witness) != 1):
+				run.Violation("reset:signed-state-root-below-the-target-lost", id, fmt.Sprintf("%s: height %d: %v", stage, h, err), nil)
+				return false
+			case h > target && err == nil:
+				run.Violation("reset:state-root-above-the-target-kept", id, fmt.Sprintf("%s: height %d still has a state root record", stage, h), nil)
+				return false
+			}
+		}
+		run.Obs("validated_heights_compared_after_reset", 1)
+		return true
+	}
+	bc, _, _, err := vchain.OpenChainNoRun(t, false, proto, rep.Store)
+	if err != nil {
+		run.Violation("reset:reopen-before-reset-failed", id, err.Error(), nil)
+		return
+	}
+	var rerr error
+	func() {
+		defer func() {
+			if x := recover(); x != nil {
+				rerr = fmt.Errorf("panic: %v", x)
+			}
+		}()
+		rerr = bc.Reset(uint32(target))
+	}()
+	if rerr != nil {
+		run.Violation("reset:uninterrupted-reset-failed", id, rerr.Error(), nil)
+		_ = rep.Store.RealClose()
+		return
+	}
+	if check("right after the reset", bc) {
+		bc2, _, _, err := vchain.OpenChainNoRun(t, false, proto, rep.Store)
+		if err != nil {
+			run.Violation("reset:reopen-after-completed-reset-failed", id, err.Error(), nil)
+		} else {
+			check("after a reopen", bc2)
+		}
+	}
+	_ = rep.Store.RealClose()
+}
+
 func checkResetPrefix(t *testing.T, run *ev.Run, h *vchain.History, cfg func(*config.Blockchain), content map[string][]byte, backend string, target int, final map[string][]byte) *outcome {
 	stage := stageName(content)
 	rep, dir, err := reopen(t, content, backend, cfg)
@@ -965,6 +1118,9 @@ func TestCheck(t *testing.T) {
 		}
 		for i := 0; i < ev.Pick(2, 8); i++ {
 			resetAheadRun(t, run, 450+i, ev.Pick(20, 40))
+		}
+		for i := 0; i < ev.Pick(4, 40); i++ {
+			resetValidatedRun(t, run, 470+i, ev.Pick(24, 50))
 		}
 	}
 	if do("page") {
